@@ -74,7 +74,7 @@ META = {
                 note="Fake clock installed as module global `time` of hio.base.doing and hio.help.timing; forward jumps excluded as in the statement."),
     "C14": dict(cat="exploration", eng="E3 product enumeration", ref="3 (C14)",
                 tech="exhaustive product enumeration of request specifications through the real Requester/Client and Requestant/buildEnviron, compared with the specification via a reference urlencoded reader",
-                text="9 methods x 7 paths x query dicts over 10 hostile atoms x header sets (incl. an empty value) x 10 bodies (raw incl. all byte values, a latin-1 str, JSON, form) x explicit Content-Length: method, path, query arguments, headers and body bytes must be recovered; the same for the second request of a reused Requester after each of 3 earlier requests (form fields, JSON, raw body with headers and query), and for the same request built a second time by one Requester.",
+                text="9 methods x 7 paths x query dicts over 10 hostile atoms x header sets (incl. an empty value) x 10 bodies (raw incl. all byte values, a latin-1 str, JSON, form) x explicit Content-Length: method, path, query arguments, headers and body bytes must be recovered; the same for the second request of a reused Requester after each of 3 earlier requests (form fields, JSON, raw body with headers and query), for the same request built a second time by one Requester, and for requests whose query is written inside the path string.",
                 note="GET carries no body by design; header values are legal field values; form fields compared as body bytes only."),
     "C18": dict(cat="model_checking", eng="E1 over FakeNet + stdlib parser", ref="3 (C18)",
                 tech="stateless deviation-bounded exploration of request sequences x WSGI app behaviours x partial sends; wire bytes judged by an independent HTTP parser",
